@@ -137,10 +137,12 @@ class VCSStrategyGit(VCSStrategy):
         ]
         # Each entry looks a little like 'submodule.submodule.path\nmy_path'.
         # Everything after the first newline is the path; it may itself
-        # contain line breaks.
+        # contain line breaks. A key without a value ('path' on a line of its
+        # own) has no newline at all and names no submodule.
         return {
             Path(entry.split("\n", maxsplit=1)[1])
             for entry in submodule_entries
+            if "\n" in entry
         }
 
     def is_ignored(self, path: StrPath) -> bool:
